@@ -619,3 +619,36 @@ impl Sink<Bytes> for SenderSink {
         Poll::Ready(Ok(()))
     }
 }
+
+/// Verification hooks (add-only, compiled only with `--cfg remoc_verif`).
+#[cfg(remoc_verif)]
+#[allow(missing_docs, private_interfaces, dead_code, clippy::all)]
+pub mod verif_hooks {
+    use super::*;
+
+    #[allow(clippy::too_many_arguments)]
+    pub fn sender_new(
+        local_port: u32, remote_port: u32, chunk_size: usize, max_data_size: usize, tx: mpsc::Sender<PortEvt>,
+        credits: CreditUser, hangup_recved: Weak<AtomicBool>,
+        hangup_notify: Weak<std::sync::Mutex<Option<Vec<oneshot::Sender<()>>>>>, port_allocator: PortAllocator,
+        storage: AnyStorage,
+    ) -> Sender {
+        Sender::new(
+            local_port,
+            remote_port,
+            chunk_size,
+            max_data_size,
+            tx,
+            credits,
+            hangup_recved,
+            hangup_notify,
+            port_allocator,
+            storage,
+        )
+    }
+
+    /// Credits currently held by a chunk sender and whether the next frame is marked `first`.
+    pub fn chunk_sender_state(c: &ChunkSender<'_>) -> (u32, bool) {
+        (c.credits.available(), c.first)
+    }
+}
